@@ -234,6 +234,34 @@ def build_go(cmdname, timeout=1200):
     return rc, out, exe
 
 
+def translate(name, out_name, extra_args=(), timeout=600):
+    """Regenerate coq/Generated/<out_name> from REPO's current source with translator/cmd/<name>
+    (a Go program using go/parser etc.; std library only).  The generator must write the file only
+    when its content changes (so that make stays incremental).  Returns (rc, log)."""
+    tdir = os.path.join(VERIF, "translator")
+    exe = os.path.join(BUILD, "translate-" + name)
+    os.makedirs(os.path.join(COQ, "Generated"), exist_ok=True)
+    with Lock("go-translator"):
+        e = env_go()
+        e["GOTOOLCHAIN"] = "local"
+        rc, out = sh(["go", "build", "-o", exe, "./cmd/" + name], cwd=tdir, env=e, timeout=timeout)
+    if rc != 0:
+        return rc, out
+    target = os.path.join(COQ, "Generated", out_name)
+    tmp = target + ".tmp"
+    rc, out = sh([exe, "--repo", REPO, "--out", tmp] + list(extra_args), cwd=tdir, timeout=timeout)
+    if rc != 0:
+        return rc, out
+    new = open(tmp).read()
+    old = open(target).read() if os.path.exists(target) else None
+    if new != old:
+        os.replace(tmp, target)
+        out += "\n[generated file changed: %s]" % out_name
+    else:
+        os.remove(tmp)
+    return 0, out
+
+
 def run_model(exe, cases_path, out_path, timeout=3000):
     """Feed 'ID<TAB>INPUT' lines to the model runner; it prints 'ID<TAB>MODEL<TAB>SPEC'."""
     with open(cases_path) as f, open(out_path, "w") as g:
